@@ -47,6 +47,80 @@ def heavy_ledger(rng, lines=2500):
     return txs
 
 
+def multi_year_ledger(rng, fx=False):
+    """Disposals in several tax years (so year filters and explain targets differ for one ledger text)."""
+    lo = rng.choice([2015, 2017, 2019, 2021])
+    opts = Opts(capital=False, splits=rng.random() < 0.3, n_sec=(1, 2), steps=(6, 12), long_gaps_p=0.6,
+                currencies=["USD", "EUR"] if fx else None,
+                start=(dt.date(lo, 1, 1), dt.date(lo + 1, 1, 1)), last_date=dt.date(2026, 3, 1))
+    return gen_ledger(rng, opts)[0]
+
+
+def json_soup(rng, ctx):
+    """A JSON ledger made invalid in one of many ways: truncated, a raw line break inside a string, a deleted or
+    inserted character, a non-ASCII character at a varying offset of a long single line, a wrong type."""
+    base = rng.choice(ctx["pool"])["txs"] if ctx["pool"] else small_ledger(rng)
+    objs = json.loads(to_json_text(base[:rng.randint(1, 6)], lambda t: t))
+    how = rng.choice(["truncated", "raw-newline-in-string", "delete-char", "insert-char", "non-ascii", "non-ascii-dense",
+                      "non-ascii-dense", "wrong-type",
+                      "pretty-error-at-line-start", "missing-field", "bad-date", "bad-number"])
+    pretty = rng.random() < 0.5
+    if how == "non-ascii":
+        o = objs[rng.randrange(len(objs))]
+        pad = "x" * rng.randint(0, 130)
+        o["note"] = pad
+        key = rng.choice([k for k in ("price", "total_value", "fees") if k in o] or ["ticker"])
+        o[key] = rng.choice(["£131.20", "€5", "1·5", "１２", "12\u00a0000"])
+        text = json.dumps(objs, ensure_ascii=False, indent=2 if pretty else None)
+        return text, how
+    if how == "non-ascii-dense":
+        # one long line with runs of multi-byte characters at varying distances on both sides of the error
+        j = rng.randrange(len(objs))
+        o = objs[j]
+        ch = rng.choice(["£", "€", "é", "😀", "Ω"])
+        bad_key = rng.choice([k for k in ("amount", "ratio", "price", "total_value") if k in o] or ["date"])
+        new = {"a": "x" * rng.randint(0, 7) + ch * rng.randint(10, 70)}
+        for k_, v_ in o.items():
+            new[k_] = v_
+        new[bad_key] = rng.choice(["abc", "1.2.3", None, True, "2024-99-99", ch + "5"])
+        new["z"] = "y" * rng.randint(0, 7) + ch * rng.randint(10, 70)
+        objs[j] = new
+        return json.dumps(objs, ensure_ascii=False), how
+    if how == "wrong-type":
+        o = objs[rng.randrange(len(objs))]
+        o[rng.choice(list(o))] = rng.choice([None, True, [], {}, 1.5e300, -1])
+        return json.dumps(objs, indent=2 if pretty else None), how
+    if how == "missing-field":
+        o = objs[rng.randrange(len(objs))]
+        o.pop(rng.choice(list(o)))
+        return json.dumps(objs, indent=2 if pretty else None), how
+    if how == "bad-date":
+        objs[rng.randrange(len(objs))]["date"] = rng.choice(["2024-02-30", "01/02/2024", "", "2024-13-01", "20240101"])
+        return json.dumps(objs, indent=2 if pretty else None), how
+    if how == "bad-number":
+        o = objs[rng.randrange(len(objs))]
+        key = rng.choice([k for k in ("amount", "ratio") if k in o] or ["ticker"])
+        o[key] = rng.choice(["abc", "1.2.3", "", "-5", "0", "1e400", "٣"])
+        return json.dumps(objs, indent=2 if pretty else None), how
+    text = json.dumps(objs, indent=2 if (pretty or how == "pretty-error-at-line-start") else None)
+    if how == "truncated":
+        return text[:rng.randint(1, max(1, len(text) - 1))], how
+    if how == "raw-newline-in-string":
+        # a string value wrapped with a raw line break: the error lands on the first byte of the next line
+        idx = [i for i, c in enumerate(text) if c == '"']
+        i = rng.choice(idx[1::2]) if len(idx) > 2 else len(text) // 2
+        return text[:i] + rng.choice(["\n", "\r\n", "\n\n"]) + text[i:], how
+    if how == "pretty-error-at-line-start":
+        lines = text.split("\n")
+        j = rng.randrange(1, len(lines))
+        lines[j] = rng.choice(["}", "]", ",", "x", "\"", ":"]) + lines[j].lstrip() if rng.random() < 0.5 else rng.choice(["", "@", "}"])
+        return "\n".join(lines), how
+    i = rng.randrange(len(text))
+    if how == "delete-char":
+        return text[:i] + text[i + 1:], how
+    return text[:i] + rng.choice(['"', "{", "}", ",", ":", "\\", "\n", "é", "\x00"]) + text[i:], how
+
+
 def gen_request(rng, rid, ctx):
     """-> (request, meta). meta['class'] labels the request; meta may carry the ledger for oracles."""
     k = rng.random()
@@ -73,12 +147,32 @@ def gen_request(rng, rid, ctx):
         cur = rng.choice(["USD", "usd", "EUR", "JPY", "XXX", "ZZZ", "", "GBP", "Eur"])
         y, m = rng.choice([(2024, 1), (2015, 12), (2026, 3), (2026, 4), (1900, 1), (2020, 0), (2020, 13), (2019, 6), (2023, 12)])
         return call(rid, "get_fx_rate", {"currency": cur, "year": y, "month": m}), {"class": "get_fx_rate", "q": (cur, y, m)}
-    # ledger-based tools
+    if k < 0.50:
+        # malformed JSON ledgers of many shapes (every one must be answered with an error)
+        text, how = json_soup(rng, ctx)
+        t = rng.choice(["parse_transactions", "calculate_report", "convert_to_dsl", "explain_matching"])
+        args = {"transactions": text}
+        if t == "explain_matching":
+            args.update(disposal_date="2024-01-01", ticker="X")
+        return call(rid, t, args), {"class": "json-soup:" + how, "tool": t}
+    # ledger-based tools: mostly drawn from a small per-session pool, so the same ledger text recurs with
+    # different tools, year filters and disposals (a server that remembered anything would show it)
     fx = rng.random() < 0.3
-    txs = ctx["heavy"] if (rng.random() < ctx["heavy_p"]) else small_ledger(rng, fx)
+    pooled = None
+    if rng.random() < ctx["heavy_p"]:
+        txs = ctx["heavy"]
+    elif ctx["pool"] and rng.random() < 0.7:
+        pooled = rng.choice(ctx["pool"])
+        txs, fx = pooled["txs"], pooled["fx"]
+    else:
+        txs = small_ledger(rng, fx)
     heavy = txs is ctx["heavy"]
-    mode = rng.choice(["dsl", "dsl", "json"]) if not heavy else "dsl"
-    text = render_dsl(txs) if mode == "dsl" else to_json_text(txs, lambda t: t)
+    if pooled:
+        mode = rng.choice(["dsl", "dsl", "dsl", "json"])
+        text = pooled["dsl"] if mode == "dsl" else pooled["json"]
+    else:
+        mode = rng.choice(["dsl", "dsl", "json"]) if not heavy else "dsl"
+        text = render_dsl(txs) if mode == "dsl" else to_json_text(txs, lambda t: t)
     flavour = rng.random()
     if flavour < 0.12 and not heavy:
         # uncovered / failing ledgers and syntax errors
@@ -119,7 +213,8 @@ def gen_request(rng, rid, ctx):
             s = rng.choice(sells)
             tk = s["ticker"] if rng.random() < 0.6 else s["ticker"].lower()
             return call(rid, t, {"transactions": text, "disposal_date": s["date"], "ticker": tk}), \
-                {"class": "explain_matching", "txs": txs, "date": s["date"], "ticker": s["ticker"], "fx": fx}
+                {"class": "explain_matching", "txs": txs, "date": s["date"], "ticker": s["ticker"], "fx": fx,
+                 "pooled": pooled is not None, "text_key": sha(text)[:12]}
         bad = rng.choice([("2024-02-30", "X"), ("01/02/2024", "X"), ("2024-01-01", "NOPE"), (txs[0]["date"], txs[0]["ticker"])])
         return call(rid, t, {"transactions": text, "disposal_date": bad[0], "ticker": bad[1]}), \
             {"class": "explain_matching:not-found-or-bad-date", "txs": txs}
@@ -264,7 +359,12 @@ def _norm(t):
 
 def run_session(rng, cnt, viols, hashes, samples, extreme=False):
     heavy = heavy_ledger(rng, rng.choice([1500, 2500, 4000]))
-    ctx = {"heavy": heavy, "heavy_p": 0.08}
+    pool = []
+    for _p in range(rng.randint(2, 4)):
+        fxp = rng.random() < 0.3
+        t_ = multi_year_ledger(rng, fxp)
+        pool.append({"txs": t_, "fx": fxp, "dsl": render_dsl(t_), "json": to_json_text(t_, lambda t: t)})
+    ctx = {"heavy": heavy, "heavy_p": 0.08, "pool": pool}
     n = rng.randint(5, 120)
     reqs = []
     for i in range(n):
@@ -315,6 +415,14 @@ def run_session(rng, cnt, viols, hashes, samples, extreme=False):
     for name, detail in rv:
         viols.append({"clause": name, "signature": name + ":sequential-reference", "detail": detail, "case": sig_case})
     fresh_checked = 0
+    seen_years = {}
+    for r, meta in reqs:
+        if meta["class"] == "explain_matching" and meta.get("pooled"):
+            ty = tax_year_of(pdate(meta["date"]))
+            ys = seen_years.setdefault(meta["text_key"], set())
+            if ys and ty not in ys:
+                cnt["explain_same_ledger_other_year"] += 1
+            ys.add(ty)
     for r, meta in reqs:
         k = Session.idkey(r["id"])
         cnt["class_" + meta["class"].split(":")[0]] += 1
@@ -341,6 +449,10 @@ def run_session(rng, cnt, viols, hashes, samples, extreme=False):
             oracle_fx(meta, a, cnt, v2, k)
         elif c in ("parse_transactions", "convert_to_dsl"):
             oracle_parse_convert(meta, a, cnt, v2, k, c)
+        elif c.startswith("json-soup"):
+            cnt["json_soup_requests_answered"] += 1
+            if "error" in a or a.get("result", {}).get("isError"):
+                cnt["json_soup_answered_with_error"] += 1
         elif c.startswith("failing-input"):
             if "result" in a and not a["result"].get("isError") and not (c.endswith("empty") and meta.get("tool") == "parse_transactions"):
                 if not (c.endswith("empty")):
@@ -462,7 +574,8 @@ def replay(case):
 
 THRESHOLDS = {"sessions": 30, "requests": 1500, "out_of_order_completions": 1, "answers_equal_reference": 1000,
               "disposals_explained": 50, "calculate_vs_library": 100, "fx_rates_equal_table": 30, "calculate_vs_cli": 20,
-              "fresh_process_references": 40, "failing_inputs_answered_with_error": 30}
+              "fresh_process_references": 40, "failing_inputs_answered_with_error": 30,
+              "json_soup_answered_with_error": 150, "explain_same_ledger_other_year": 20}
 RULE = ("sessions of 5-120 requests over the five tools, tools/list, resources/list|read, ping, unknown tools and "
         "malformed arguments, sent in single-write bursts of 1-64 mixing multi-thousand-line ledgers with trivial calls "
         "(so completions overtake), each followed by a sentinel ping; offline history check (exactly one response per id, "
